@@ -53,12 +53,12 @@ Example ex_enum_marshal :
   let c := {| mbuf := [9]; mfds := 0 |} in
   let k := CFields true [RArray (RBase BUint64); RBase BByte] in
   let vs := [VArray (TBase BUint64) [VBase BUint64 1]; VBase BByte 2] in
-  len (to_str (case_ty k)) <= 255 /\ pay_matches k (PFields vs) = true /\ type_ok (case_ty k) = true
+  pay_matches k (PFields vs) = true /\ type_ok (case_ty k) = true
   /\ snd (derive_case_marshal false k (PFields vs) c) = true
   /\ derive_case_marshal false k (PFields vs) c = marshal_t false (VVariant (case_ty k) (VStruct vs)) c
   /\ sig_macro_marshal false (macro_case k) (VStruct vs) c = marshal_t false (VVariant (case_ty k) (VStruct vs)) c
   /\ marshal_p false 0 (VVariant (case_ty k) (VStruct vs)) c = marshal_t false (VVariant (case_ty k) (VStruct vs)) c.
-Proof. vm_compute. repeat split; discriminate. Qed.
+Proof. vm_compute. repeat split. Qed.
 
 (* a variant holding (u32, u32) - none of the cases - after one byte, followed by other data *)
 Definition ex_out_t : ty := TStruct [TBase BUint32; TBase BUint32].
@@ -117,7 +117,7 @@ Proof.
   set (k := CFields false ex_rs). set (c := {| mbuf := [9; 9; 9]; mfds := 0 |}).
   assert (Em : derive_case_marshal false k (PFields [VBase BByte 7; VBase BUint64 258]) c
                = marshal_t false (VVariant (case_ty k) ex_sv) c)
-    by (apply derive_enum_marshal_variant; [vm_compute; discriminate|reflexivity]).
+    by (apply derive_enum_marshal_variant; reflexivity).
   rewrite Em.
   destruct (marshalled_variant_at false (case_ty k) ex_sv c (fst (marshal_t false (VVariant (case_ty k) ex_sv) c)) [165] 0) as [Hav Haft].
   - exists TVariant. reflexivity.
